@@ -18,7 +18,7 @@ from .. import c02_util as U
 from ..common import Verdict, use_repo, child_env, SEED, BUILD, PY, VERIF, ensure_dir
 from . import c02
 
-TIERS = {'quick': ['order1', 'tz2', 'mixed2', 'mixed3', 'dates3'], 'thorough': ['order1', 'order2', 'mixed2', 'mixed3', 'dates3', 'tz3']}
+TIERS = {'quick': ['order1', 'tz2', 'mixed2', 'mixed3'], 'thorough': ['order1', 'order2', 'mixed2', 'mixed3', 'dates3', 'tz3']}
 RANDOM_VALUES = {'quick': 1500, 'thorough': 30000}
 VARIANTS = {'quick': [0, 1], 'thorough': [0, 1, 2]}
 INVARIANTS = ['SortDeterminism', 'InsertionOrder', 'FixedPoint', 'AnchorsOfDocumentAlone', 'AnchorsWellFormed']
@@ -31,9 +31,13 @@ def recipes_of(states, extra):
         out.append(st['last'])
         rseed = c02.state_seed(name, st)
         sets = c02.option_sets(st, rseed, extra['extra_opts'])
-        for opts in sets:
+        # the same value again under another option set (allow_unicode and width changed), dumped before or after
+        # the first one depending on the interpreter: the text for (value, options) must not depend on that history
+        twin = dict(sets[0], allow_unicode=True, width=20)
+        for opts in sets + [twin]:
             out.append({'kind': 'state', 'config': name, 'heap': st['heap'], 'root': st['root'], 'rseed': rseed,
                         'opts': U.opts_json(opts), 'sortdet': st['lres']['sortdet'], 'alias': any(e['k'] == 'alias' for e in st['lres']['ev'])})
+        out[-1]['light'] = True
     return out
 
 
@@ -55,7 +59,7 @@ def run_children(recipes, hashseeds, variants, tag):
         full = hi == 0
         inp = os.path.join(d, '%s_in_%d_%d.json' % (tag, ci, full))
         outp = os.path.join(d, '%s_out_%d_%d.json' % (tag, hi, ci))
-        p = subprocess.run([PY, '-m', 'harness.drivers.c16_child', inp, outp], cwd=VERIF, capture_output=True, text=True,
+        p = subprocess.run([PY, '-m', 'harness.drivers.c16_child', inp, outp, str(hi)], cwd=VERIF, capture_output=True, text=True,
                            env=child_env(PYTHONHASHSEED=hashseeds[hi]), timeout=3000)
         if p.returncode != 0:
             return 'child failed (hashseed %s): %s' % (hashseeds[hi], (p.stdout + p.stderr)[-2000:])
@@ -174,8 +178,9 @@ def classify(yaml, rec, t, meta, results, variants):
             for v in variants:
                 outs.setdefault(res['outs']['%d/%s' % (v, meta['dumper'])], []).append((hi, v))
         groups = sorted(outs.values())
-        key['varies_with'] = ('hash seed' if any(len({v for _, v in g}) == len(variants) for g in groups) and len(groups) > 1 else 'insertion order') \
-            if t['kind'] == 'contents' else 'hash seed'
+        per_interp_same = all(len({res['outs']['%d/%s' % (v, meta['dumper'])] for v in variants}) == 1 for res in results)
+        key['varies_with'] = 'insertion order' if t['kind'] == 'contents' and not per_interp_same else \
+            'interpreter (hash seed or history of earlier dumps)'
         kinds = sorted({type(k).__name__ for k in iter_keys(value)})
         key['key_types'] = kinds
     return key
@@ -254,6 +259,7 @@ def main(tier, replay=None):
             if rng.random() < 0.3:
                 opts = {'sort_keys': opts['sort_keys'], 'default_flow_style': opts['default_flow_style']}
             recipes.append({'kind': 'random', 'seed': SEED, 'index': i, 'homog': 0.8 if i % 3 else 0.0, 'opts': U.opts_json(opts)})
+            recipes.append(dict(recipes[-1], opts=U.opts_json(dict(opts, allow_unicode=not opts.get('allow_unicode'))), light=True))
     phases['tlc_model_checking_and_recipes_s'] = round(time.time() - t0, 1)
     t0 = time.time()
     results = run_children(recipes, hashseeds, variants, 'C16_%s' % tier)
